@@ -48,6 +48,12 @@ CHECKS = {
  "C19": ("fault_enumeration", "converter as nondeterministic environment in TLC (31 libidn2 codes at every conversion of every history) + replay with the converter replaced at link time (--wrap), with and without output buffer",
          "Single faults at every position of every history of L calls exhaustively in the model and on the code; containment, message = idn2_strerror(code), no flag, heap balance, following validation equal to a fresh object.",
          "Trusted: TLC, wrap.c fault injector. Multi-fault sequences: every conversion in a history may fail independently."),
+ "C17": (MC, "spec instantiated with the option record of each of the 8 Makefile builds; TLC vectors replayed on the matching build; Makefile defaults from make -pn",
+         "What each option documents is part of layer P (AtomChar excludes the RFC 20 characters in mode 6531 only, QRules switches 6531 to the 5322 rules, LabelChar admits '_'); everything else is pinned exactly as in the default build.",
+         "Trusted: TLC, layer P with options, the repository Makefile doing the -D mapping (it is the thing under test). Non-ASCII local parts under RFC6531_FOLLOW_RFC5322: only ill-formed UTF-8 is pinned (rejected)."),
+ "C18": (MC, "three backend source sets built via the Makefile against thin adapters over one converter; address/TLD/policy vectors and all object histories (with faults) replayed on each; TLC object model with CONSTANT Backend for context balance",
+         "Same pins as the idn2 build on every vector; create/destroy balance of the idnkit context checked in TLC (ctx in {0,1}, zero after eav_free, never destroyed at 0) and by adapter counters after every replayed history.",
+         "libidn and idnkit themselves are absent: the adapters (harness/adapters) stand for them, so nothing is claimed about those libraries, only about libeav's three source sets."),
 }
 NOT_YET = {}
 
